@@ -28,6 +28,7 @@ use syn::visit::{self, Visit};
 use syn::{Expr, ImplItem, Item, Pat, Stmt, Token};
 
 mod chain;
+mod f64rw;
 mod frag;
 
 fn die(code: i32, msg: &str) -> ! {
@@ -207,6 +208,16 @@ impl<'a> R<'a> {
                     return Some(format!("{}.qx_index({})", self.expr(&ix.expr), self.expr(&ix.index)));
                 }
             }
+        }
+        if let Expr::Macro(m) = e {
+            let name = m.mac.path.segments.last().map(|s| s.ident.to_string()).unwrap_or_default();
+            if matches!(name.as_str(), "todo" | "unimplemented" | "unreachable" | "panic") {
+                self.note(format!("R12 `{}!()` -> qx_unreachable() (prelude: requires false — reaching it is an obligation)", name));
+                return Some("qx_unreachable()".to_string());
+            }
+        }
+        if let Some(s) = f64rw::rw_f64(self, e) {
+            return Some(s);
         }
         if let Some(s) = chain::rw_chain(self, e) {
             return Some(s);
